@@ -144,10 +144,13 @@ func (self *stateObject) markSuicided() {
 }
 
 func (c *stateObject) touch() {
+	// An object taken over by StateDB.Copy is in the dirty set with its callback still
+	// armed: ask the set, or reverting the touch would drop the object's pending changes.
+	_, prevDirty := c.db.stateObjectsDirty[c.address]
 	c.db.journal = append(c.db.journal, touchChange{
 		account:   &c.address,
 		prev:      c.touched,
-		prevDirty: c.onDirty == nil,
+		prevDirty: prevDirty,
 	})
 	if c.onDirty != nil {
 		c.onDirty(c.Address())
